@@ -145,29 +145,9 @@ func isSubscriptionFrame(f gorou.Frame) bool {
 
 func (r *run) libQ() gorou.Query { return gorou.Query{Exclude: leaked} }
 
-func describe(hits []gorou.Hit) []string {
-	var out []string
-	for _, h := range hits {
-		out = append(out, fmt.Sprintf("g%d [%s] %s (%s:%d)", h.G.ID, h.G.State, gorou.ShortFunc(h.Frame.Func), shortFile(h.Frame.File), h.Frame.Line))
-	}
-	return out
-}
+func describe(hits []gorou.Hit) []string { return gorou.Describe(hits) }
 
-func shortFile(f string) string {
-	if i := strings.LastIndexByte(f, '/'); i >= 0 {
-		return f[i+1:]
-	}
-	return f
-}
-
-func terminalState(st string) bool {
-	switch st {
-	case "chan send", "chan receive", "select", "semacquire", "sync.Mutex.Lock", "sync.RWMutex.RLock", "sync.RWMutex.Lock", "sync.Cond.Wait", "sync.WaitGroup.Wait",
-		"chan send (nil chan)", "chan receive (nil chan)", "select (no cases)":
-		return true
-	}
-	return false
-}
+func terminalState(st string) bool { return gorou.TerminalState(st) }
 
 // deadlocked reports whether the process is in a state from which the awaited
 // signal can never come: every goroutine that belongs to the library or to this
@@ -179,41 +159,15 @@ func (r *run) deadlocked(what string) (sig, msg string, extra map[string]interfa
 	for id := range leaked {
 		ex[id] = true
 	}
-	all := gorou.Query{Any: true, Exclude: ex}
-	s := all.Stable(3, 12)
-	if !s.Stable {
+	lib, mine, samples, ok := gorou.Quiescent(ex, harnessPrefix, 3, 12)
+	if !ok {
 		return "", "", nil, false
-	}
-	var lib, mine []gorou.Hit
-	for _, h := range s.Hits {
-		isLib, isMine := false, false
-		var libFrame gorou.Frame
-		for _, f := range h.G.Frames {
-			if !isLib && strings.HasPrefix(f.Func, gorou.LibPrefix) {
-				isLib, libFrame = true, f
-			}
-			if strings.HasPrefix(f.Func, harnessPrefix) {
-				isMine = true
-			}
-		}
-		if !isLib && !isMine {
-			continue
-		}
-		if !terminalState(h.G.State) {
-			return "", "", nil, false
-		}
-		if isLib {
-			h.Frame = libFrame
-			lib = append(lib, h)
-		} else {
-			mine = append(mine, h)
-		}
 	}
 	cls := what
 	if i := strings.IndexByte(cls, '('); i >= 0 {
 		cls = cls[:i]
 	}
-	extra = map[string]interface{}{"waiting_for": what, "library_goroutines": describe(lib), "harness_goroutines": describe(mine), "samples": s.Samples}
+	extra = map[string]interface{}{"waiting_for": what, "library_goroutines": describe(lib), "harness_goroutines": describe(mine), "samples": samples}
 	if len(lib) == 0 {
 		return "stuck:no-library-goroutine:" + cls, "no library goroutine is left but the harness still waits for " + what + " (result channel never closed / result never delivered)", extra, true
 	}
